@@ -394,6 +394,7 @@ func lockheld(id int, rng *rand.Rand) O {
 // folded into a store, and a new crew is booted from the store.
 func restart(id int, rng *rand.Rand) O {
 	h := newHarness(false)
+	began := time.Now()
 	n := 1 + rng.Intn(3)
 	for i := 0; i < n; i++ {
 		h.request("add", "t"+strconv.Itoa(i+1), rng.Intn(4) > 0)
@@ -401,7 +402,12 @@ func restart(id int, rng *rand.Rand) O {
 	if rng.Intn(2) == 0 {
 		h.request("rem", "t1", true)
 	}
-	time.Sleep(time.Duration(rng.Intn(12)) * time.Millisecond)
+	time.Sleep(time.Duration(rng.Intn(8)) * time.Millisecond)
+	if time.Since(began) > shortDelay-14*time.Millisecond {
+		// (the machine is so busy that a timer may be due by now: a restart after a firing that no message has reported yet
+		// is another story - the store still has the timer -, so this history goes without its restart)
+		return h.finish(id, "timer-restart", O{"n": n, "restart": "skipped"}, true)
+	}
 	// stop the first crew (its timer goroutines end with its context) and boot the second from the store
 	h.mu.Lock()
 	js, err := json.Marshal(h.shadow)
